@@ -764,10 +764,15 @@ def pick_params(prop, tier, seed):
     if prop in ("C01", "C02", "C03", "C07", "C08", "C09", "C10", "C18", "C19"):
         nv = 12 if tier == "quick" else 200
         for f in rnd.sample(ALL_FIXTURES, nv):
-            cl = [i for i in code_lines(f) if line_is_relayoutable(read_fixture(f)[i])]
-            if cl:
-                lo = rnd.choice(cl)
-                out.append({"prop": prop, "fixture": f, "window": [lo, lo + 1], "conf": "default", "vary": 3, "vary_seed": rnd.randrange(10**6)})
+            txt = read_fixture(f)
+            cl = [i for i in code_lines(f) if line_is_relayoutable(txt[i])]
+            if not cl:
+                continue
+            # two windows out of three are drawn around a line on which some rule reports (that is where a rule's region of interest is)
+            hot = [k - 1 for k in violations_by_line(f) if 1 <= k - 1 < len(txt) and line_is_relayoutable(txt[k - 1])]
+            lo = rnd.choice(hot) if (hot and rnd.random() < 0.67) else rnd.choice(cl)
+            lo = max(0, lo - rnd.randrange(2))
+            out.append({"prop": prop, "fixture": f, "window": [lo, lo + 1], "conf": "default", "vary": 3, "vary_seed": rnd.randrange(10**6)})
     return out
 
 
